@@ -13,6 +13,7 @@
 #include <sys/stat.h>
 #include <sys/mman.h>
 #include <pthread.h>
+#include <time.h>
 
 enum { J_CREATE, J_WRITE, J_SYNC, J_SYNCDIR, J_RENAME, J_UNLINK, J_MARK, J_LINK, J_OPENR, J_CLOSE, J_FAIL };
 static const char *jkind_name[] = { "create", "write", "sync", "syncdir", "rename", "unlink", "mark", "link", "openr", "close", "fail" };
@@ -41,6 +42,7 @@ static int g_fault_persistent = 0;
 static int g_fault_partial = 0;    /* a failing write first writes half of the bytes */
 static long g_fault_count = 0;     /* faultable calls seen so far */
 static long g_fault_fired = 0;
+static int g_slow_tables = 0;      /* widen race windows: sleep 1 ms on every write to a table file (set in nowait mode) */
 static char g_fault_kinds[64] = "";
 static long g_kind_count[10];
 static const char *g_kind_names[10] = { "open", "write", "sync", "rename", "unlink", "close", "mkdir", "link", "read", "mmap" };
@@ -73,8 +75,12 @@ static void jmark(const char *fmt, ...) {
   char buf[96]; va_list ap; int idx;
   if (!g_journal) return;
   va_start(ap, fmt); vsnprintf(buf, sizeof(buf), fmt, ap); va_end(ap);
-  idx = jadd(J_MARK, NULL, NULL, NULL, 0, 0);
+  pthread_mutex_lock(&g_jm);
+  if (nJ == capJ) { capJ = capJ ? capJ * 2 : 1024; J = (jev *)realloc(J, capJ * sizeof(jev)); }
+  idx = nJ; memset(&J[idx], 0, sizeof(jev)); J[idx].kind = J_MARK; J[idx].tag = -1;
   snprintf(J[idx].note, sizeof(J[idx].note), "%s", buf);
+  nJ++;
+  pthread_mutex_unlock(&g_jm);
 }
 
 static int kind_enabled(const char *k) {
@@ -99,7 +105,7 @@ static int fault_check(const char *kind, const char *rel) {
     int idx;
     g_fault_fired++;
     idx = jadd(J_FAIL, rel, kind, NULL, 0, 0);
-    J[idx].tag = g_fault_errno;
+    pthread_mutex_lock(&g_jm); J[idx].tag = g_fault_errno; pthread_mutex_unlock(&g_jm);
     return g_fault_errno;
   }
   return 0;
@@ -135,6 +141,7 @@ ssize_t write(int fd, const void *buf, size_t n) {
       }
       errno = fe; return -1;
     }
+    if (g_slow_tables && strstr(g_fdname[fd], ".ldb") != NULL) { struct timespec ts; ts.tv_sec = 0; ts.tv_nsec = 1000000; syscall(SYS_nanosleep, &ts, NULL); }
     r = syscall(SYS_write, fd, buf, n);
     if (r > 0) jadd(J_WRITE, g_fdname[fd], NULL, buf, r, 0);
     return r;
@@ -265,6 +272,28 @@ static void sfs_apply(sfs *s, const jev *e) {
   }
 }
 
+#include <dirent.h>
+/* start the shadow file system from an existing directory: every file fully synced, no pending directory operations */
+static void sfs_init_from_dir(sfs *s, const char *dir) {
+  DIR *d = opendir(dir); struct dirent *de; char path[1200];
+  sfs_init(s);
+  if (!d) return;
+  while ((de = readdir(d)) != NULL) {
+    struct stat st; int id, fd; sbody *b;
+    if (!strcmp(de->d_name, ".") || !strcmp(de->d_name, "..")) continue;
+    snprintf(path, sizeof(path), "%s/%s", dir, de->d_name);
+    if (stat(path, &st) != 0 || !S_ISREG(st.st_mode)) continue;
+    id = sfs_newbody(s); b = &s->bodies[id];
+    b->cap = (size_t)st.st_size + 64; b->d = (unsigned char *)malloc(b->cap); b->len = 0;
+    fd = syscall(SYS_openat, AT_FDCWD, path, O_RDONLY, 0);
+    if (fd >= 0) { ssize_t r; while (b->len < (size_t)st.st_size && (r = syscall(SYS_read, fd, b->d + b->len, (size_t)st.st_size - b->len)) > 0) b->len += r; syscall(SYS_close, fd); }
+    b->synced = b->len;
+    sfs_dir_set(s, de->d_name, id); sfs_addop(s, J_CREATE, de->d_name, NULL, id);
+  }
+  closedir(d);
+  s->ops_synced = s->nops;
+}
+
 static uint64_t g_crng = 88172645463325252ULL;
 static uint64_t crnd(void) { g_crng ^= g_crng << 13; g_crng ^= g_crng >> 7; g_crng ^= g_crng << 17; return g_crng; }
 
@@ -281,9 +310,12 @@ static void raw_write_file(const char *path, const unsigned char *d, size_t n) {
  *          2 = directory ahead of data (all directory ops, files cut to their synced length)
  *          3 = torn tails (all directory ops; every file cut at a random byte between its synced length and its length)
  *          4 = random admissible image (random directory prefix >= synced, random cut per file) */
-static void materialise(int n, int variant, const char *dst) {
+static void materialise_from(const char *basedir, int n, int variant, const char *dst);
+static void materialise(int n, int variant, const char *dst) { materialise_from(NULL, n, variant, dst); }
+/* basedir != NULL: the journal describes what happened to a copy of that directory (nested crash during recovery) */
+static void materialise_from(const char *basedir, int n, int variant, const char *dst) {
   sfs s, d; int i, j, nops_keep; char cmd[1200], path[1200];
-  sfs_init(&s);
+  if (basedir) sfs_init_from_dir(&s, basedir); else sfs_init(&s);
   for (i = 0; i < n; i++) sfs_apply(&s, &J[i]);
   /* directory of the image: replay the first nops_keep directory operations */
   if (variant == 0 || variant == 2 || variant == 3) nops_keep = s.nops;
@@ -311,6 +343,7 @@ static void materialise(int n, int variant, const char *dst) {
 
 static void jprint_new(void) {
   int i;
+  pthread_mutex_lock(&g_jm);      /* background threads may be appending to the journal */
   for (i = J_printed; i < nJ; i++) {
     jev *e = &J[i];
     printf("j %d %s", i, jkind_name[e->kind]);
@@ -331,6 +364,7 @@ static void jprint_new(void) {
     fputc('\n', stdout);
   }
   J_printed = nJ;
+  pthread_mutex_unlock(&g_jm);
 }
 
 static void jreset(void) {
